@@ -83,6 +83,8 @@ theorem applyRes_noIdle (cfg : Cfg) (pol : Policy) (step : Nat) (tickEv : Ev) (d
   | failed exc failedAt =>
     simp only [applyRes]
     split
+    · exact h
+    split
     · simp [List.any_append, h, isIdlePub]
     all_goals
       split
